@@ -3,7 +3,8 @@
 R-ALG: the real function computed by each operation equals the mathematical one (polynomial / rational identities, sqrt as an
 opaque atom with sqrt(p)^2 = p).  R-ROUND: rounding-depth / no-cancellation certificate for the polynomial ones.
 R-GUARD: the checked normalize family returns the normalised vector exactly when 1/length is finite and positive, and the
-documented fallback otherwise.  Not decided: accuracy of the polynomial arccos, overflow/underflow boundaries, conditioning."""
+documented fallback otherwise.  R-APPROX: the polynomial arccos is within 1e-6 of acos on its whole domain (interval certificate).
+Not decided: overflow/underflow boundaries, conditioning."""
 import re
 import terms as tm
 from terms import ite
